@@ -240,8 +240,22 @@ def state_matches(snap, ref, tol=1e-8):
             if not pauli.same_group_fast(data.group(), ref.group):
                 return False, f"stabilizer group {data.group().labels()[:8]} != reference {ref.group.labels()[:8]}"
         elif ref.rho is not None:
-            if not np.allclose(dense.projector_of_group(data.group()), ref.rho, atol=tol):
+            if not np.allclose(dense.projector_of_group(data.group()), ref.rho, atol=tol, rtol=0):
                 return False, "stabilizer state differs from dense reference"
+        return True, None
+    if kind == "ms":
+        # a mixture: one component of weight 1 is judged like a pure stabilizer state; several components through the dense sum
+        comps = [(p, sn) for p, sn in data]
+        for p, sn in comps:
+            probs = sn.problems()
+            if probs:
+                return False, "invalid tableau in the mixture: " + "; ".join(probs)
+        if len(comps) == 1 and abs(comps[0][0] - 1) < 1e-9:
+            return state_matches(("s", comps[0][1]), ref, tol)
+        if ref.rho is not None:
+            rho = sum(p * dense.projector_of_group(sn.group()) for p, sn in comps)
+            d = float(np.max(np.abs(rho - ref.rho)))
+            return d <= tol, f"max |mixture - ref| = {d:.3g}"
         return True, None
     return True, None
 
